@@ -179,3 +179,91 @@ Theorem C09_spec_children_rows : forall fs oi fs', f_next fs = FItem oi fs' ->
                                   pd_rows q = o_rows oi ++ r0) new.
 Proof. exact f_next_children_rows. Qed.
 Print Assumptions C09_spec_children_rows.
+
+(* x-c09seg: the root traversal CONTAINS the sub-tree traversal (Pwl/PolyGenSeg.v; Next-only scripts).
+   Position of r = dt_idx (pd_tree q): par is the pending item of r's parent (below: chain of pchild steps from the
+   root item pend0 dt), q the pending item created for r (pchild par q r0: depth S (depth par), rows = rows of par ++
+   edge rows r0, sibling counter).  The dsize dt Next calls of new(tree) report
+     (before ++ item of r's parent :: mid) ++ [lifted stream of with_root(r)] ++ after,
+   lifted = depth + depth(r), rows reported for the parent in front; the only difference is the sibling counter of
+   r's own item (with_root(r) reports 0, the root traversal the number of r's later siblings): set_first_nrem *)
+From AT Require Import PolyGenSeg.
+Theorem C09_root_stream_contains_subtree_stream : forall a root fuel dt par q r0,
+  ginv a root -> dabs fuel a root = Some dt -> below (pend0 dt) par -> pchild par q r0 ->
+  start_rows a (dt_idx (pd_tree q)) = Some r0 /\
+  exists before mid after,
+    pgen_run a (pgen_new root) (repeat Next (dsize dt)) =
+      (before ++ OItem (pend_item par) :: mid)
+      ++ set_first_nrem (pd_nrem q)
+           (map (lift_out (S (pd_depth par)) (pd_rows par))
+                (pgen_run a (pgen_new (dt_idx (pd_tree q))) (repeat Next (dsize (pd_tree q)))))
+      ++ after.
+Proof. exact pgen_root_stream_contains_sub. Qed.
+(* the same on the specification machine, for any binary decorated tree *)
+Theorem C09_spec_stream_subtree_segment : forall dt par q r0, dbin dt -> below (pend0 dt) par -> pchild par q r0 ->
+  exists before mid after,
+    f_run (f_new dt) (repeat Next (dsize dt)) =
+      (before ++ OItem (pend_item par) :: mid)
+      ++ set_first_nrem (pd_nrem q)
+           (map (lift_out (S (pd_depth par)) (pd_rows par)) (f_run (f_new_sub r0 (pd_tree q)) (repeat Next (dsize (pd_tree q)))))
+      ++ after.
+Proof. exact next_stream_subtree_segment. Qed.
+(* r = root: d0 = 0, pre = [], rows0 = [] *)
+Theorem C09_root_stream_self : forall a root fuel dt script, ginv a root -> dabs fuel a root = Some dt ->
+  pgen_run a (pgen_new root) script = map (lift_out 0 []) (f_run (f_new_sub [] dt) script).
+Proof. exact pgen_root_stream_self. Qed.
+(* dsize = number of nodes: exactly dsize items, no End/Panic, afterwards only End *)
+Theorem C09_root_stream_all_items : forall a root fuel dt, ginv a root -> dabs fuel a root = Some dt ->
+  exists items, pgen_run a (pgen_new root) (repeat Next (dsize dt)) = map OItem items /\ length items = dsize dt.
+Proof. exact pgen_root_stream_all_items. Qed.
+Theorem C09_sub_stream_all_items : forall r0 t, dbin t ->
+  (exists items, f_run (f_new_sub r0 t) (repeat Next (dsize t)) = map OItem items /\ length items = dsize t) /\
+  forall m, f_run (f_new_sub r0 t) (repeat Next (dsize t + m)) = f_run (f_new_sub r0 t) (repeat Next (dsize t)) ++ repeat OEnd m.
+Proof. exact sub_stream_all_items. Qed.
+Theorem C09_abstraction_is_binary : forall a, ginv_sub a -> forall i t, drep a i t -> dbin t.
+Proof. exact drep_dbin. Qed.
+Example C09_root_stream_segment_nonvacuous :
+  ginvb pgs_arena 0 = true /\ dabs 6 pgs_arena 0 = Some pgs_dt /\ dsize pgs_dt = 5%nat /\
+  below (pend0 pgs_dt) (pend0 pgs_dt) /\ pchild (pend0 pgs_dt) pgs_q2 pgs_r2 /\
+  below (pend0 pgs_dt) pgs_q2 /\ pchild pgs_q2 pgs_q4 pgs_r4 /\
+  dt_idx (pd_tree pgs_q2) = 2%nat /\ dt_idx (pd_tree pgs_q4) = 4%nat /\ dsize (pd_tree pgs_q2) = 3%nat /\
+  map pgs_key (pgen_run pgs_arena (pgen_new 0) (repeat Next 5)) = [0%nat; 111%nat; 120%nat; 231%nat; 240%nat] /\
+  outs_eqb (pgen_run pgs_arena (pgen_new 0) (repeat Next 5))
+           (firstn 2 (pgen_run pgs_arena (pgen_new 0) (repeat Next 5))
+            ++ set_first_nrem 0 (map (lift_out 1 []) (pgen_run pgs_arena (pgen_new 2) (repeat Next 3))) ++ []) = true /\
+  outs_eqb (pgen_run pgs_arena (pgen_new 0) (repeat Next 5))
+           (firstn 4 (pgen_run pgs_arena (pgen_new 0) (repeat Next 5))
+            ++ set_first_nrem 0 (map (lift_out 2 (pd_rows pgs_q2)) (pgen_run pgs_arena (pgen_new 4) (repeat Next 1))) ++ []) = true /\
+  outs_eqb (pgen_run pgs_arena (pgen_new 0) (repeat Next 5))
+           (firstn 2 (pgen_run pgs_arena (pgen_new 0) (repeat Next 5))
+            ++ pgen_run pgs_arena (pgen_new 2) (repeat Next 3)) = false.
+Proof. exact pgen_root_segment_example. Qed.
+Print Assumptions C09_root_stream_contains_subtree_stream.
+Print Assumptions C09_spec_stream_subtree_segment.
+Print Assumptions C09_root_stream_self.
+Print Assumptions C09_root_stream_all_items.
+Print Assumptions C09_sub_stream_all_items.
+Print Assumptions C09_abstraction_is_binary.
+Print Assumptions C09_root_stream_segment_nonvacuous.
+(* the position given by a path of labels from the root: r = the node reached by ls ++ [l]; d0 = S (length ls) *)
+Theorem C09_root_stream_contains_subtree_stream_path : forall a root fuel dt ls l par q r0,
+  ginv a root -> dabs fuel a root = Some dt -> pend_at (pend0 dt) ls = Some par -> child_pend par l = Some (q, r0) ->
+  pd_depth q = S (length ls) /\ start_rows a (dt_idx (pd_tree q)) = Some r0 /\
+  exists before mid after,
+    pgen_run a (pgen_new root) (repeat Next (dsize dt)) =
+      (before ++ OItem (pend_item par) :: mid)
+      ++ set_first_nrem (pd_nrem q)
+           (map (lift_out (S (length ls)) (pd_rows par))
+                (pgen_run a (pgen_new (dt_idx (pd_tree q))) (repeat Next (dsize (pd_tree q)))))
+      ++ after.
+Proof. exact pgen_root_stream_contains_sub_path. Qed.
+Example C09_root_stream_segment_path_nonvacuous :
+  option_map (fun p => dt_idx (pd_tree p)) (pend_at (pend0 pgs_dt) [1%nat; 1%nat]) = Some 4%nat /\
+  option_map (fun p => dt_idx (pd_tree p)) (pend_at (pend0 pgs_dt) [1%nat; 0%nat]) = Some 3%nat /\
+  option_map (fun p => pd_nrem p) (pend_at (pend0 pgs_dt) [1%nat; 0%nat]) = Some 1%nat /\
+  pend_at (pend0 pgs_dt) [1%nat] = Some pgs_q2 /\
+  option_map fst (child_pend pgs_q2 1%nat) = Some pgs_q4 /\
+  pend_at (pend0 pgs_dt) [0%nat; 0%nat] = None.
+Proof. exact pgen_root_segment_path_example. Qed.
+Print Assumptions C09_root_stream_contains_subtree_stream_path.
+Print Assumptions C09_root_stream_segment_path_nonvacuous.
